@@ -2,10 +2,17 @@ package main
 
 import (
 	"bytes"
+	"regexp"
 	"strings"
+
+	"mvdan.cc/editorconfig"
 )
 
 type bytesBuf = bytes.Buffer
 type stringsReader = strings.Reader
 
 func newStringsReader(s string) *strings.Reader { return strings.NewReader(s) }
+
+func verifNewQuery() editorconfig.Query {
+	return editorconfig.Query{FileCache: make(map[string]*editorconfig.File), RegexpCache: make(map[string]*regexp.Regexp)}
+}
